@@ -14,3 +14,12 @@ def check(ctx):
     ctx.assumptions += ["MapLike::get/get_mut are projections to the entry stored under the key (trait contract; "
                         "the EnumMap impl is checked in C05/R7)", "Clone for the state type is a faithful copy",
                         "PartialEq for the state type is an equivalence"]
+
+
+CTL_ADT = "witness_controls::anim::CtlAnimator"
+
+
+def controls(ctx, F):
+    tab = T.build(ctx, facts=F, adt_path=CTL_ADT, crate="witness_controls")
+    T.rules_c04(ctx, tab)
+    return [("R5", "stale-pause-record-kept", "animator copy that never discards the pause record")]
